@@ -1302,6 +1302,13 @@ class Engine:
                 v = self.ev(sub, st)
                 last = i == len(e.values) - 1
                 t = self.truth(v, st)
+                if not isinstance(t, bool) and not (is_z3(v) and z3.is_bool(v)):
+                    # `a or b` / `a and b` in VALUE position with a non-boolean operand of symbolic truth: python returns the operand itself
+                    if acc:
+                        raise Unsupported("and/or mixing symbolic booleans with non-boolean values")
+                    if last:
+                        return v
+                    t = self.decide(t, st)
                 if isinstance(t, bool):
                     if (is_and and not t) or (not is_and and t):
                         # short circuit: python returns v itself; in boolean positions only its truth matters
